@@ -27,7 +27,32 @@ static void reuse_verdict(const char *fn, const char *cls, int ok, const char *c
   vx_check(ok, key, "%s: %s into an output that %s gives %s %zux%zu differing from the result with fresh outputs (%zux%zu) by %g", ctx, fn, how, what, got->row, got->col, want->row, want->col, ok ? 0.0 : hm_maxdiff(got, want));
 }
 
+/* A column whose scaling factor lies inside the library's documented zero-spread guard (here: spread 5e-4 around 0.25 under
+ * autoscaling or range scaling) is switched off at fit time; the model on the remaining columns must still re-project: the
+ * stored preprocessing applied by PLSScorePredictor to the training X has to treat that column the same way the fit did.
+ * Own small alphabet; only the re-projection identity and the stored yrecalculation are judged (to 1e-8 of the score size:
+ * both sides run the same arithmetic on the same numbers). */
+static void guarded_column(void) {
+  int n = vx_choose("objects", 2) ? 12 : 8, p = 3 + vx_choose("p-3", 2), xs = vx_choose("xscaling", 2) ? 4 : 1, ys = vx_choose("yscaling", 2);
+  int ny = 1 + vx_choose("ny-1", 2), col = vx_choose("column", p), nlv = 1 + vx_choose("nlv-1", p - 1), k = vx_choose("values", 2);
+  vg_fill(900 + k, n, p, X_); for (int i = 0; i < n * p; i++) X_[i] = 2.0 * X_[i] + 1.0 + 0.5 * ((i % p) % 2);
+  for (int i = 0; i < n; i++) X_[i * p + col] = 0.25 + ((i * 5) % n) * (5e-4 / n);
+  for (int i = 0; i < n; i++) for (int r = 0; r < ny; r++) { double sgn = r ? -1.0 : 1.0, sum = 3.0 + r; for (int j = 0; j < p; j++) if (j != col) sum += sgn * (1.0 + 0.3 * j) * X_[i * p + j]; Y_[i * ny + r] = sum + 0.2 * vg_val(950 + k, i, r); }
+  matrix *mx = hm_new(n, p, X_), *my = hm_new(n, ny, Y_), *ps; initMatrix(&ps);
+  PLSMODEL *m; NewPLSModel(&m);
+  static char tk[64]; snprintf(tk, sizeof tk, "nonterm|PLS|guarded-column"); TICKKEY = tk; vx_tick_reset();
+  PLS(mx, my, (size_t)nlv, xs, ys, m, NULL); vx_transition(1);
+  char key[128]; snprintf(key, sizeof key, "reproject|PLSScorePredictor|column-inside-zero-guard,xs=%d", xs);
+  int shp = (int)m->xscores->row == n && (int)m->xscores->col == nlv && hm_allfinite(m->xscores);
+  if (shp) { PLSScorePredictor(mx, m, (size_t)nlv, ps); vx_transition(1); shp = (int)ps->row == n && (int)ps->col == nlv && hm_allfinite(ps); }
+  double tmax = 0, d = 0; if (shp) for (int i = 0; i < n; i++) for (int a = 0; a < nlv; a++) { double t = fabs(m->xscores->data[i][a]), e = fabs(ps->data[i][a] - m->xscores->data[i][a]); if (t > tmax) tmax = t; if (e > d) d = e; }
+  vx_check(shp && d <= 1e-8 * tmax, key, "X %dx%d with column %d of spread 5e-4 (scaling factor inside the zero-spread guard), ny=%d nlv=%d xs=%d ys=%d: max|PLSScorePredictor(training X) - xscores| = %g, max|t| = %g (or wrong shape / non-finite)", n, p, col, ny, nlv, xs, ys, d, tmax);
+  vx_outcome(hm_hash(m->xscores, (uint64_t)(77 + xs)));
+  DelMatrix(&ps); DelPLSModel(&m); DelMatrix(&mx); DelMatrix(&my);
+}
+
 static void body(void) {
+  if (vx_choose_dev("guarded-column", 2)) { guarded_column(); return; }
   int si = vx_choose("shape", vx_thorough() ? 8 : 5);
   int xs = vx_choose("xscaling+1", 7) - 1, ys = vx_choose("yscaling+1", 7) - 1;
   int ny = 1 + vx_choose("ny-1", 4);
@@ -201,7 +226,7 @@ static void body(void) {
 
 int main(int argc, char **argv) {
   vg_seed(getenv("VERIF_SEED") ? atol(getenv("VERIF_SEED")) : 0);
-  vx_describe("alphabet", "X shapes {(6,1),(6,2),(7,3),(10,4),(12,6)} [thorough +(9,8),(20,10),(40,12)] x families {spectral kappa 10, lattice} [+ kappa 100, kappa 3] x "
+  vx_describe("alphabet", "[deviation: one X column of spread 5e-4 inside the zero-spread guard, objects {8,12} x p {3,4} x xscaling {1,4} x yscaling {0,1} x ny 1..2 x column x nlv 1..p-1 x 2 value sets: re-projection only] X shapes {(6,1),(6,2),(7,3),(10,4),(12,6)} [thorough +(9,8),(20,10),(40,12)] x families {spectral kappa 10, lattice} [+ kappa 100, kappa 3] x "
               "xscaling -1..5 x yscaling -1..5 x ny 1..4 x noise {0,0.1,3} x nlv 1..p (all) ; deviations (<=1 quick, <=2 thorough): Y variant {offsets, correlated, differently scaled}, "
               "X variant {offset columns, no offsets, 1e3 offset + x50 column, column sd 4e-3 (fit/apply zero-guard band)}");
   vx_describe("oracle", "cos(t_i,t_j), cos(w_i,w_j), |t_k - E_{k-1} w_k|, |t_k'(E-TP')|, |E-TP'| at nlv=rank, PLSScorePredictor(X)=T, PLSYPredictorAllLV(X)=recalculated_y: "
